@@ -481,7 +481,8 @@ func c13Judge(r *Run, w *World, e *Engine, calls []*c13Call, exts []ExtCfg, fn, 
 				if o.c.ReqHdr["Lambda-Extension-Identifier"] != id || o.c.StartStep > firstDelivery {
 					continue
 				}
-				if o.kind == "next" && o.idKind == "" && (!o.c.Done || o.c.Err != nil || o.c.Status == 200) {
+				// accepted = it parked (a refused poll is answered in the step it was issued in)
+				if o.kind == "next" && o.idKind == "" && (!o.c.Done || o.c.Err != nil || o.c.Status == 200 || o.c.EndStep > o.c.StartStep) {
 					polled = true
 				}
 				if (o.kind == "initerror" || o.kind == "exiterror") && o.c.Done && o.c.Status == 202 {
